@@ -3,7 +3,7 @@ C10 - flags are well-typed, shared with tracts, and raised whenever warranted.
 
 (1) The C03 input space (token soup, damaged seeds, specials x parse modes): typing / pairing /
     hand-down / flawed invariants on the description and on every tract.
-(2) Trigger phrases: 16 phrases (singular / plural / upper-case) inserted at every token boundary of 16 seed descriptions x
+(2) Trigger phrases: 22 phrases (singular / plural / upper-case / wrapped over a line break with extra blanks) inserted at every token boundary of 16 seed descriptions x
     {default, sec_within, both colon modes, every forced layout, ocr_scrub, clean_qq}: the corresponding warning flag
     must be present and one of its context strings must contain the triggering word.
 (3) Re-use: all sequences of up to 3 (quick) / 4 (thorough) tract-level re-parse operations (PLSSDesc.parse_tracts with and without
@@ -18,7 +18,7 @@ from .. import soup
 ID = 'C10'
 LEVEL = 'model_checking'
 TECHNIQUE = ('token-soup / damage-edit enumeration x parse modes with a typing-pairing-hand-down invariant on every result, plus all '
-             'placements of 16 trigger phrases at every token boundary of 16 seed descriptions x 11 modes, plus all sequences of up to '
+             'placements of 22 trigger phrases at every token boundary of 16 seed descriptions x 11 modes, plus all sequences of up to '
              '3/4 re-parse operations on parsed descriptions (same invariant after every sequence)')
 LEVEL_TEXT = ('The flag invariants (lists of str paired one-to-one with 2-tuples of str, description flags present on every tract, '
               'flawed iff error flag, error TRS implies error flag) are evaluated on every result of the C03 space; the trigger clause '
@@ -51,6 +51,12 @@ TRIGGERS = {
     'all existing wellbores': ('well', ['wellbores']),
     'the producing wells': ('well', ['wells']),
     'THE WELLBORE': ('well', ['wellbore']),
+    'only in so \nfar as it covers': ('insofar', ['in so']),
+    'in \nso  far as': ('insofar', ['so']),
+    'IN SO\n FAR AS': ('insofar', ['in so']),
+    'less  and \nexcept the road': ('less_except', ['less']),
+    'limited\n to the Bakken': ('less_except', ['limit']),
+    'from the surface\n down to 100 feet': ('depth', ['surface', 'down']),
     'Less And Except the road': ('less_except', ['less', 'except']),
 }
 TRIGGER_MODES = ['default', 'sec_within', 'sec_colon_required', 'sec_colon_cautious', 'cfg:TRS_desc', 'cfg:desc_STR', 'cfg:S_desc_TR',
